@@ -21,7 +21,7 @@ for p in props:
         continue
     jobs = info["jobs"]()
     kinds = sorted(set(j.kind for j in jobs))
-    eng = "+".join({"kani": "K", "rsx": "X"}[k] for k in kinds if k != "scan")
+    eng = "+".join({"kani": "K", "rsx": "X"}[k] for k in kinds if k != "scan") or "X"
     for k in kinds:
         if k != "scan":
             serves[{"kani": "K", "rsx": "X"}[k]].append(pid)
